@@ -129,7 +129,12 @@ def default_inputs(run, rng, focus):
             rx = rx.replace('xmlns:p=', 'xmlns:pp=').replace('<p:', '<pp:').replace('</p:', '</pp:').replace(' p:', ' pp:')
         inputs.append((xml(L), rx, opts))
     # wide documents: one parent with many children, reversed / shuffled / rotated (long alignments)
-    if focus in ("C01", "C05", "C17"):
+    if focus in ("C01", "C04", "C05", "C17"):
+        # small permutations of same-tag siblings with children of their own (paths through shifting indices)
+        for perm in ([2, 1, 0], [1, 2, 0], [2, 0, 1], [3, 2, 1, 0], [1, 0, 3, 2], [3, 0, 2, 1]):
+            kids = ['<c k="%d">%s</c>' % (i, "<d/>" * (i + 1)) for i in range(len(perm))]
+            inputs.append(("<r>" + "".join(kids) + "</r>",
+                           "<r>" + "".join(kids[i].replace("<d/>", "<d/><e/>", 1) for i in perm) + "</r>", {'uniqueattrs': ['k']}))
         for n in ([45] if quick else [45, 80]):
             for kind in ("reversed", "shuffled"):
                 ks = list(range(n))
